@@ -138,7 +138,7 @@ def _splice(F, bid, idx, call, G):
                 F.blocks[s_].preds.append(b.id)
     F._where = None
     F._parent = None
-    for a in ("_sdefs", "_csrc", "_odefs"):
+    for a in ("_sdefs", "_csrc", "_odefs", "_sdefs_any", "_csrc_any"):
         if hasattr(F, a):
             delattr(F, a)
 
